@@ -63,8 +63,12 @@ def crossratio(
         if not np.all(is_concurrent(a, b, c, d)):
             raise NotConcurrent("The lines are not concurrent: " + str([a, b, c, d]))
 
-        from_point = a.meet(b)
-        a, b, c, d = a.base_point, b.base_point, c.base_point, d.base_point
+        if a.dim == 2:
+            # in the dual plane four concurrent lines are four collinear points with the same cross ratio
+            a, b, c, d = (PointCollection.from_array(x.array) for x in (a, b, c, d))
+        else:
+            from_point = a.meet(b)
+            a, b, c, d = a.base_point, b.base_point, c.base_point, d.base_point
 
     elif (
         isinstance(a, PlaneTensor)
